@@ -20,6 +20,7 @@ import copy
 import os
 import re
 import shutil
+import signal
 import sys
 import tempfile
 import time
@@ -869,16 +870,50 @@ class Impl:
                 resp = ("got", v)
             elif k == "N":
                 t.cache_enabled = op[2]
+        except CaseTimeout:
+            self.hung = True
+            _TIMEOUTS[0] += 1
+            resp = ("raised", "CaseTimeout")
         except Exception as e:
             resp = ("raised", type(e).__name__)
         calls = [(c[0], c[1], c[2], c[3], c[4]) for c in _RecState.calls]
         return {"resp": resp, "ticks": ticks, "calls": calls}
 
     def run(self):
-        return [self.step(op) for op in self.case["history"]]
+        res = []
+        for op in self.case["history"]:
+            if getattr(self, "hung", False):
+                res.append({"resp": ("raised", "CaseTimeout"), "ticks": [], "calls": []})
+            else:
+                res.append(self.step(op))
+        return res
+
+
+class CaseTimeout(Exception):
+    pass
+
+
+def _alarm(signum, frame):
+    raise CaseTimeout()
+
+
+CASE_TIMEOUT_S = 5
+_TIMEOUTS = [0]
 
 
 def run_impl(case):
+    """(steps, cache ids).  A case that does not finish in CASE_TIMEOUT_S (a back end waiting for a lock it already
+    holds, say) is cut off: the step it hung in answers ("raised", "CaseTimeout")."""
+    old = signal.signal(signal.SIGALRM, _alarm)
+    signal.setitimer(signal.ITIMER_REAL, CASE_TIMEOUT_S)
+    try:
+        return _run_impl(case)
+    finally:
+        signal.setitimer(signal.ITIMER_REAL, 0)
+        signal.signal(signal.SIGALRM, old)
+
+
+def _run_impl(case):
     tmp = None
     try:
         if case["backend"] == "beaker_file":
@@ -1318,7 +1353,14 @@ def report_violation(ctx, stream, case, diff, seen_sites):
     stripped = strip_known(case)
     d_s = oracle_check(stripped)
     if d_s is not None:
-        # something no recorded defect explains: shrink without sliding into a recorded one
+        # something no recorded defect explains: shrink without sliding into a recorded one (the first one of a stream
+        # is minimised and reported, the others are counted)
+        if (stream, "<unrecorded>") in seen_sites:
+            ctx.branch("oracle:repeat:unrecorded-defect")
+            ctx.stream(stream, "oracle")["disagreements"] += 1
+            return
+        seen_sites.add((stream, "<unrecorded>"))
+
         def fails_new(c):
             return oracle_check(strip_known(c)) is not None
         small = strip_known(shrink_case(stripped, fails_new))
@@ -1396,7 +1438,12 @@ def run_stream(ctx, backend, n, seen_sites, k0):
         cases.append(case)
     lines = [w_case(c) for c in cases]
     outs = drv.ask_many(lines)
+    t_before = _TIMEOUTS[0]
     for case, line in zip(cases, outs):
+        if _TIMEOUTS[0] - t_before > 12:
+            ctx.notes.append("%s: stream stopped after repeated case timeouts (back end hangs)" % backend)
+            ctx.log("%s: stream stopped after repeated case timeouts" % backend)
+            break
         impl, ids = run_impl(case)
         cs["cases"] += 1
         os_["cases"] += 1
@@ -1410,7 +1457,10 @@ def run_stream(ctx, backend, n, seen_sites, k0):
             d = first_diff_model(impl, model)
         except Exception as e:
             d = {"field": "parse", "error": repr(e), "line": line[:300]}
-        if d is not None:
+        if d is not None and cs["disagreements"] > 0:
+            ctx.disagree("corr." + backend, {"input": repr(case["history"])[:200], "note": "not minimised (a minimised "
+                         "disagreement of this stream was already recorded)"}, d.get("model"), d)
+        elif d is not None:
             small = case
             try:
                 def fails(c):
